@@ -329,7 +329,25 @@ def rule_alignment(ck, rid="C17.S2"):
     rule_demand_cost(ck)
 
 
+def rule_tariff_choice(ck, rid="C17.S2"):
+    """energy_cost / demand_charge price with the tariff that was passed; the simulator's own tariff signal is only the default."""
+    from .c06 import _default_only_on_none
+    repo = ck.repo
+    for q, meth in (("energy_cost", "get_tariffs"), ("demand_charge", "get_demand_charge")):
+        f = repo.fn(q)
+        fl = flow_of(f)
+        p = f.params[1]
+        _default_only_on_none(ck, f, fl, p, (f"{f.params[0]}.signals['tariff']", f'{f.params[0]}.signals["tariff"]'), q)
+        calls = [(n, c) for n, c in calls_in(fl, meth)]
+        ck.require(len(calls) == 1, rid, f, calls[0][1] if calls else meth, bad=f"{len(calls)} {meth} call sites in {q}", sink=f"{q}:tariff-call")
+        for n, c in calls:
+            recv = c.func.value
+            ck.require(dotted(recv) == p, rid, f, c, ok=f"priced with the `{p}` argument (defaulted from the simulator's signal only when None)",
+                       bad=f"{q} prices with `{src(recv, 40)}`, not with the tariff argument", sink=f"{q}:tariff-receiver")
+
+
 def run(ck):
+    rule_tariff_choice(ck)
     rule_tables(ck)
     rule_schedule_parse(ck)
     rule_wrap(ck)
